@@ -380,13 +380,28 @@ pub const fn cfg(max_chunks: usize, max_bytes: usize, nranges: usize) -> Cfg {
 dd_proof!(p_new3, 3, [1, 2, 3, 0, 0], [M, M, M, M, M], 3, NOCFG);
 dd_proof!(p_new2_hit1_nr1, 3, [1, 2, 3, 0, 0], [M, M, H(1), M, M], 3, cfg(0, 0, 1));
 
-// ---- experiments -----------------------------------------------------------------------------------
-pub struct MockNone;
+// ---- all-hit family ---------------------------------------------------------------------------------
+/// Every query is answered by a truthful hit from the ghost store; the run length is 2 when exactly
+/// RUN2_AT chunks remain in the call (0 = never) and 1 otherwise.  Which stored xorb and where in it
+/// the chunks sit is symbolic, so consecutive hits may or may not continue the previous segment,
+/// and fragmentation prevention may reject a hit (the chunk then becomes new data).
+pub struct MockAllHit<const RUN2_AT: usize> {
+    pub cfg: Cfg,
+}
 #[async_trait]
-impl DeduplicationDataInterface for MockNone {
+impl<const RUN2_AT: usize> DeduplicationDataInterface for MockAllHit<RUN2_AT> {
     type ErrorType = ();
-    async fn chunk_hash_dedup_query(&self, _q: &[MerkleHash]) -> Result<Option<(usize, FileDataSequenceEntry)>, ()> {
-        Ok(None)
+    async fn chunk_hash_dedup_query(&self, q: &[MerkleHash]) -> Result<Option<(usize, FileDataSequenceEntry)>, ()> {
+        let n = if RUN2_AT != 0 && q.len() == RUN2_AT { 2 } else { 1 };
+        let x: usize = if kani::any() { 0 } else { 1 };
+        let s = unsafe { GHOST_POS[x][id_of(&q[0]) as usize] };
+        let mut bytes = len_of(id_of(&q[0]));
+        if n == 2 {
+            let id = id_of(&q[1]);
+            kani::assume(unsafe { GHOST_POS[x][id as usize] } == s + 1);
+            bytes += len_of(id);
+        }
+        Ok(Some((n, FileDataSequenceEntry::new(store_hash(x), bytes as u32, s, s + n as u32))))
     }
     async fn register_global_dedup_query(&mut self, _c: MerkleHash) -> Result<(), ()> {
         Ok(())
@@ -395,26 +410,102 @@ impl DeduplicationDataInterface for MockNone {
         Ok(false)
     }
     async fn register_new_xorb(&mut self, xorb: RawXorbData) -> Result<(), ()> {
+        check_xorb(&xorb, &self.cfg, false);
+        record_xorb(&xorb);
         std::mem::forget(xorb);
         Ok(())
     }
 }
-#[kani::proof]
-#[kani::stub(std::env::var, env_var_stub)]
-#[kani::stub(std::env::set_var, set_var_noop)]
-#[kani::stub(merkledb::aggregate_hashes::cas_node_hash, cas_node_hash_stub)]
-#[kani::stub(merkledb::aggregate_hashes::file_node_hash, file_node_hash_stub)]
-#[kani::stub(mdb_shard::chunk_verification::range_hash_from_chunks, range_hash_stub)]
-#[kani::stub(std::hash::RandomState::new, rs_stub)]
-#[kani::stub(<std::hash::DefaultHasher as std::hash::Hasher>::write, dh_write_stub)]
-#[kani::stub(<std::hash::DefaultHasher as std::hash::Hasher>::finish, dh_finish_stub)]
-#[kani::stub(alloc::fmt::format, fmt_stub)]
-fn e1_none3() {
-    install_cfg(NOCFG);
-    let mut d = FileDeduper::new(MockNone);
-    let chunks = [mk_chunk(1), mk_chunk(2), mk_chunk(3)];
-    let m = kani::block_on(d.process_chunks(&chunks)).unwrap();
-    assert!(m.total_chunks == 3 && m.new_chunks == 3);
-    assert!(m.total_bytes == 15);
-    std::mem::forget((d, chunks));
+pub fn record_xorb(xorb: &RawXorbData) {
+    let nr = unsafe { N_REGISTERED };
+    assert!(nr < 4, "harness bound: at most 4 xorbs cut per file");
+    let mut ids = [0u8; MAXN];
+    let n = xorb.cas_info.chunks.len();
+    let mut i = 0;
+    while i < n && i < MAXN {
+        ids[i] = id_of(&xorb.cas_info.chunks[i].chunk_hash);
+        i += 1;
+    }
+    let h = xorb.hash();
+    unsafe {
+        REGISTERED[nr] = ([h[0], h[1], h[2], h[3]], ids, n);
+        N_REGISTERED = nr + 1;
+    }
 }
+
+pub fn run_all_hit<const RUN2_AT: usize, const N: usize>(cfg: Cfg) {
+    install_cfg(cfg);
+    ghost_any();
+    let with_ext: bool = kani::any();
+    let salt: [u8; 32] = [kani::any(); 32];
+    let mut d = FileDeduper::new(MockAllHit::<RUN2_AT> { cfg });
+    let ids: [u8; MAXN] = [1, 2, 3, 4, 5];
+    let shape = Shape { n: N, ids, ans: [Ans::Hit(1); MAXN], split: N, cfg };
+    let mut chunks: Vec<Chunk> = Vec::new();
+    let mut file_bytes = 0usize;
+    let mut i = 0;
+    while i < N {
+        chunks.push(mk_chunk(ids[i]));
+        file_bytes += len_of(ids[i]);
+        i += 1;
+    }
+    let m = kani::block_on(d.process_chunks(&chunks[..])).unwrap();
+    kani::cover!(m.defrag_prevented_dedup_chunks > 0, "dd: a dedup hit was rejected by fragmentation prevention");
+    kani::cover!(m.deduped_chunks > 0 && m.defrag_prevented_dedup_chunks == 0, "dd: every dedup hit was accepted");
+    check_call_metrics(&m, N, file_bytes);
+    let ext = if with_ext { Some(FileMetadataExt::new(MerkleHash::from([1u64, 2, 3, 4]))) } else { None };
+    let (file_hash, agg, total, new_xorbs) = d.finalize(salt, ext);
+    assert!(total.total_bytes == file_bytes, "C14/C03: the file's total-bytes metric (pointer size) equals the bytes fed in");
+    assert!(total.new_chunks + total.deduped_chunks == total.total_chunks && total.total_chunks == N, "C14: new + deduped == total for the file");
+    let mut hl: Vec<(MerkleHash, usize)> = Vec::new();
+    let mut i = 0;
+    while i < N {
+        hl.push((chunk_hash(ids[i]), len_of(ids[i])));
+        i += 1;
+    }
+    assert!(file_hash == merkledb::aggregate_hashes::file_node_hash(&hl, &salt).unwrap(), "C03/C02: file hash is the hash of the full chunk list under the configured salt");
+    assert!(agg.pending_file_info.len() == 1, "C01: one pending file record");
+    check_file_record(&agg.pending_file_info[0].0, &shape, &agg, file_hash, with_ext);
+    let (xorb, fis) = agg.finalize();
+    let mut references_final = false;
+    let mut k = 0;
+    while k < fis[0].segments.len() {
+        if fis[0].segments[k].cas_hash == xorb.hash() {
+            references_final = true;
+        }
+        assert!(fis[0].segments[k].cas_hash != MerkleHash::default(), "C15: no file record is emitted with an unresolved xorb reference");
+        k += 1;
+    }
+    check_xorb(&xorb, &cfg, !references_final);
+    std::mem::forget((xorb, fis, hl, chunks, new_xorbs));
+}
+
+pub fn check_call_metrics(m: &DeduplicationMetrics, nchunks: usize, bytes: usize) {
+    assert!(m.total_chunks == nchunks, "C14: total chunks of a call equals the chunks fed in");
+    assert!(m.total_bytes == bytes, "C14: total bytes of a call equals the bytes fed in");
+    assert!(m.new_chunks + m.deduped_chunks == m.total_chunks, "C14: new + deduped == total (chunks)");
+    assert!(m.new_bytes + m.deduped_bytes == m.total_bytes, "C14: new + deduped == total (bytes)");
+    assert!(m.defrag_prevented_dedup_chunks <= m.new_chunks, "C14: chunks withheld from dedup are a subset of the new chunks");
+    assert!(m.defrag_prevented_dedup_bytes <= m.new_bytes, "C14: bytes withheld from dedup are a subset of the new bytes");
+}
+
+#[macro_export]
+macro_rules! dd_allhit {
+    ($name:ident, $run2:expr, $n:expr, $cfg:expr) => {
+        #[kani::proof]
+        #[kani::stub(std::env::var, env_var_stub)]
+        #[kani::stub(std::env::set_var, set_var_noop)]
+        #[kani::stub(merkledb::aggregate_hashes::cas_node_hash, cas_node_hash_stub)]
+        #[kani::stub(merkledb::aggregate_hashes::file_node_hash, file_node_hash_stub)]
+        #[kani::stub(mdb_shard::chunk_verification::range_hash_from_chunks, range_hash_stub)]
+        #[kani::stub(std::hash::RandomState::new, rs_stub)]
+        #[kani::stub(std::collections::HashMap::insert, hm_insert_count)]
+        #[kani::stub(std::collections::HashMap::clear, hm_clear_count)]
+        #[kani::stub(alloc::fmt::format, fmt_stub)]
+        fn $name() {
+            $crate::dd::run_all_hit::<{ $run2 }, { $n }>($cfg);
+        }
+    };
+}
+dd_allhit!(allhit_n3_nr1, 0, 3, cfg(0, 0, 1));
+dd_allhit!(allhit_n2_nr1, 0, 2, cfg(0, 0, 1));
